@@ -38,9 +38,21 @@ fn run_replay(ctx: &Ctx, rep: &mut Report, prop: &str) -> bool {
     ctx.replay.is_some()
 }
 
-/// deterministic cases shared by C01: matrix, stress shapes, in-repo corpus
-fn deterministic_sources() -> Vec<(String, String)> {
+/// deterministic cases shared by C01: matrix, stress shapes, in-repo corpus; `third` = one in how
+/// many of the three-way combinations (construct in wrapper in context) to take (1 = all)
+fn deterministic_sources(third: u64, seed: u64) -> Vec<(String, String)> {
     let mut v = Vec::new();
+    let mut k3 = 0u64;
+    for ci in 0..gen::MATRIX_CONSTRUCTS.len() {
+        for wi in 0..gen::MATRIX_WRAPPERS.len() {
+            for xi in 0..gen::MATRIX_CONTEXTS.len() {
+                k3 += 1;
+                if (k3.wrapping_mul(0x9E37_79B9_7F4A_7C15).wrapping_add(seed) >> 24) % third == 0 {
+                    v.push(gen::matrix3_program(ci, wi, xi));
+                }
+            }
+        }
+    }
     for ci in 0..gen::MATRIX_CONSTRUCTS.len() {
         for xi in 0..gen::MATRIX_CONTEXTS.len() {
             v.push(gen::matrix_program(ci, xi));
@@ -79,7 +91,7 @@ pub fn c01(ctx: &Ctx, rep: &mut Report) {
     }
     let dir = ctx.scratch("c01");
     let mut k = 0u64;
-    for (name, src) in deterministic_sources() {
+    for (name, src) in deterministic_sources(if ctx.quick() { 6 } else { 1 }, ctx.seed) {
         k += 1;
         if !ctx.mine(k) {
             continue;
@@ -93,7 +105,7 @@ pub fn c01(ctx: &Ctx, rep: &mut Report) {
                 if k % 16 == 0 {
                     judge_cli(rep, "C01", &name, &src, &j.outcome, &dir, k);
                 }
-                rep.bump("c01-source", if name.starts_with("stress") { "stress" } else if name.starts_with("corpus") { "corpus" } else { "matrix" });
+                rep.bump("c01-source", if name.starts_with("stress") { "stress" } else if name.starts_with("corpus") { "corpus" } else if name.matches('@').count() == 2 { "three-way matrix" } else { "matrix" });
             }
             Err(e) => {
                 if name.starts_with("corpus") {
